@@ -42,10 +42,16 @@ STALE_KEY = "stale-molalities-after-revise-guesses"
 STALE_REPLAY = "SOLUTION 1\n temp 5\n" + gens.TAIL
 ISO_KEY = "isotope-initial-solution-total-is-major-isotope"
 ISO_REPLAY = "SOLUTION 1\n D 0\n" + gens.TAIL
+CONST_KEY = "add-constant-ignored"
 QUICK_DBS = ["phreeqc.dat", "wateq4f.dat", "minteq.v4.dat", "minteq.dat"]
 PITZER_SIT = {"pitzer.dat", "sit.dat", "frezchem.dat", "ColdChem.dat", "Concrete_PZ.dat"}
 TOL_LOG = 1e-9
 TOL_REL = 1e-7
+
+
+def dbfile(dbname):
+    """shipped database name or absolute path of a generated one"""
+    return str(dbname) if str(dbname).startswith("/") else str(vlib.REPO / "database" / dbname)
 
 
 def unhexd(h):
@@ -107,7 +113,7 @@ def parse_harness(out):
         if line.startswith("dump "):
             w = line.split()
             dump = {"idx": int(w[2]), "state": int(w[3].split("=")[1]), "u": [], "m": [], "mi": [], "pex": {}, "s": [], "p": [], "r": {},
-                    "rt": {}, "rp": {}, "rk": {}, "rkp": {}}
+                    "rt": {}, "rp": {}, "rk": {}, "rkp": {}, "x": {}, "rn": {}}
             if cur is None:
                 cur = {"dumps": [], "sel": [], "rc": None, "err": ""}
             cur["dumps"].append(dump)
@@ -158,6 +164,10 @@ def parse_harness(out):
                 dump["rp"][w[1]] = [unhexd(x) for x in w[2:5]]
             elif t == "rk":
                 dump["rk"][w[1]] = unhexd(w[2])
+            elif t == "rn":
+                dump["rn"][w[1]] = unhexd(w[2])
+            elif t == "x":
+                dump["x"][w[1]] = unhexd(w[2])
             elif t == "rkp":
                 dump["rkp"][w[1]] = unhexd(w[2])
             continue
@@ -203,7 +213,11 @@ def case_lines(d, cid):
         L.append(f"pe {name} {len(body)} " + " ".join(f"{n} {hexd(c)}" for n, c in body))
         L.append(f"pk {name} " + " ".join(hexd(x) for x in k[:9]))
     for s in d["s"]:
+        if s["type"] in (5, 6):          # exchange / surface species: outside C01 (aqueous mass action)
+            continue
         L.append(f"sp {s['name']} {hexd(s['lm'])} {hexd(s['lg'])} {hexd(s['la'])} {hexd(s['moles'])}")
+    for n, v in d["x"].items():
+        L.append(f"xs {n} {hexd(v)}")
     for p in d["p"]:
         L.append(f"ph {p['name']}")
     omoles = 0.0
@@ -224,7 +238,7 @@ def parse_model(lines):
         if not w:
             continue
         if w[0] == "case":
-            cur = {"rx": {}, "lk": {}, "lm": {}, "res": {}, "alk": {}, "tot": {}, "si": {}, "bad": []}
+            cur = {"rx": {}, "lk": {}, "lm": {}, "res": {}, "alk": {}, "tot": {}, "si": {}, "bad": [], "mol": {}, "vtot": {}, "nk": {}}
             cases[w[1]] = cur
         elif cur is None:
             continue
@@ -247,6 +261,12 @@ def parse_model(lines):
             cur["lk"][w[1]] = (unhexd(w[2]), unhexd(w[3]))
         elif w[0] == "lm":
             cur["lm"][w[1]] = unhexd(w[2])
+        elif w[0] == "mol":
+            cur["mol"][w[1]] = unhexd(w[2])
+        elif w[0] == "vtot":
+            cur["vtot"][w[1]] = unhexd(w[2])
+        elif w[0] == "nk":
+            cur["nk"][w[1]] = unhexd(w[2])
         elif w[0] == "res":
             cur["res"][w[1]] = ("missing", w[3]) if w[2] == "missing" else unhexd(w[2])
         elif w[0] == "alk":
@@ -273,7 +293,7 @@ def close(a, b, rel, floor=0.0):
     return abs(a - b) <= rel * max(abs(a), abs(b)) + floor
 
 
-def judge(d, mc, stats):
+def judge(d, mc, stats, mb={}):
     """returns (oracle_failures, tie_failures); each a list of (kind, name, detail)"""
     orc, tie = [], []
     W = d["W"]
@@ -369,6 +389,9 @@ def judge(d, mc, stats):
                 lm = mc["lm"][n]
                 if abs(lm - fresh.get(n, s["lm"])) > TOL_LOG:
                     tie.append(("lm", n, f"lm: engine molalities() gives {fresh.get(n)!r} (stored {s['lm']!r}), model {lm!r}"))
+                mm = mc["mol"].get(n)
+                if mm is not None and not stale and not close(mm, s["moles"], 1e-8, 1e-300):
+                    orc.append(("moles", n, f"stored moles {s['moles']!r}, under(lm)*water from the database equation {mm!r}"))
                 stats["lk"] += 1
                 if any(k[i] != 0.0 for i in range(2, 8)):
                     stats["lk_analytic"] += 1
@@ -444,6 +467,37 @@ def judge(d, mc, stats):
                                             f"{aside!r} mol set aside for the minor isotopes given in the SOLUTION"))
             else:
                 orc.append(("sum", e, f"TOT({e})*water = {t * W!r}, sum over species {mt!r}"))
+    # totals per valence state (TOT("Fe(2)"), -totals Fe(2)): recomputed from the secondary-form reactions
+    skip_bases = set()
+    for s_ in aq:
+        if s_["name"] in mb:           # -mole_balance overrides the element list of the species (polysulfides, isotopologues)
+            skip_bases |= mb[s_["name"]]
+    if True:
+        for e, mt in mc["vtot"].items():
+            base = e.split("(")[0]
+            if base in ("H", "O", "E") or e not in d["rt"]:
+                continue
+            if base in skip_bases:
+                stats["valence_totals_skipped_mole_balance"] += 1
+                continue
+            t = d["rt"][e]
+            stats["valence_totals"] += 1
+            terms = sum(abs(s_["moles"]) for s_ in aq if s_["name"] != "H2O")
+            if not close(mt, t * W, TOL_REL, 1e-12 * terms + 1e-300):
+                orc.append(("valence-total", e, f"TOT({e})*water = {t * W!r}, sum over species of the valence state {mt!r}"))
+    # LK_NAMED
+    if one_atm:
+        for nm, v in d["rn"].items():
+            if nm == "xconstantx":      # the engine's internal carrier of -add_constant, not a name of the database text
+                continue
+            mv = mc["nk"].get(nm)
+            if mv is None:
+                if nm != "xconstantx":
+                    tie.append(("lk_named", nm, "named expression unknown to the model"))
+                continue
+            stats["lk_named"] += 1
+            if abs(v - mv) > TOL_LOG:
+                orc.append(("lk_named", nm, f"LK_NAMED {v!r}, database text gives {mv!r} at {d['tk']} K"))
     # (e) pH, SI
     hp = smap.get("H+")
     if hp is not None:
@@ -525,13 +579,40 @@ def new_stats():
                            "readouts", "sums", "si", "si_skipped", "gate", "dumps", "runs", "runs_error", "runs_nodump",
                            "above_1atm", "rewritten_valence_masters", "rewritten_relative_to_switched_basis",
                            "states_with_redox_couple", "stale_states", "stale_states_excused", "couples", "isotope_initial_totals",
-                           "oracle_failures")} | {"res_max": 0.0, "seen": set()}
+                           "oracle_failures", "valence_totals", "valence_totals_skipped_mole_balance", "lk_named",
+                           "add_constant_ignored_states")} | {"res_max": 0.0, "seen": set()}
+
+
+def resolve_named(db):
+    """NAMED_EXPRESSIONS with their -add_logk chains resolved the way tidy does (own expression selected, every entry of the
+    referenced expressions added, recursion depth 15) -> {lower name: 8-vector or None when circular/unknown}"""
+    out = {}
+
+    def go(key, depth):
+        if key in out:
+            return out[key]
+        nd = db.named.get(key)
+        if nd is None or depth > 15:
+            return None
+        v = list(nd.logk.vector())
+        for nm, c in nd.add_logk:
+            w = go(nm.lower(), depth + 1)
+            if w is None:
+                out[key] = None
+                return None
+            v = [a + c * b for a, b in zip(v, w)]
+        out[key] = v
+        return v
+
+    for k in db.named:
+        go(k, 0)
+    return out
 
 
 # ------------------------------------------------------------------------------------------ database tie
 def compare_db(ctx, exe, dbname, db):
     """engine's reading of the database vs the independent parser's; returns list of differences"""
-    r = vlib.sh([str(exe)], input=f"db {vlib.REPO}/database/{dbname}\ndbdump\n", timeout=300)
+    r = vlib.sh([str(exe)], input=f"db {dbfile(dbname)}\ndbdump\n", timeout=300)
     diffs = []
     es, ep, en, em = {}, {}, {}, []
     for line in r.stdout.splitlines():
@@ -557,8 +638,9 @@ def compare_db(ctx, exe, dbname, db):
             en[w[1]] = [unhexd(x) for x in w[2:]]
         elif w[0] == "M":
             em.append((w[1], w[2], unhexd(w[3]), int(w[4])))
-    if not es:
-        return ["engine could not load the database: " + r.stdout[:200]], 0
+    first = r.stdout.split("\n", 1)[0].split()
+    if not es or first[:1] != ["db"] or first[1:2] != ["0"]:
+        return ["engine could not load the database: " + r.stdout[:300]], 0
     n = 0
     allsp = {}
     allsp.update(db.species)
@@ -616,6 +698,18 @@ def compare_db(ctx, exe, dbname, db):
     for nm in ep:
         if nm not in db.phases:
             diffs.append(f"engine phase {nm} unknown to the parser")
+    # named expressions: the engine's table holds them after select_log_k_expression + add_logks (chains resolved)
+    res = resolve_named(db)
+    for nm, v in res.items():
+        e = en.get(nm)
+        if e is None:
+            diffs.append(f"named expression {nm} missing in engine")
+            continue
+        n += 1
+        if v is None:
+            continue
+        if any(abs(a - b) > 1e-11 * max(1, abs(a), abs(b)) for a, b in zip(e[:8], v)):
+            diffs.append(f"named expression {nm}: engine {e[:8]} parser {v}")
     mine_m = [(m.element, m.species, m.alk, 1 if m.primary else 0) for m in db.masters]
     eng_m = [(a, b, c, d) for a, b, c, d in em if es.get(b, {"type": 9})["type"] <= 3]
     if sorted(mine_m) != sorted(eng_m):
@@ -653,12 +747,15 @@ def kcalc_direct(ctx, exe, n):
 # ------------------------------------------------------------------------------------------ one database
 def check_runs(ctx, exe, dbname, db, dblines, texts, stats):
     """runs texts on the engine and the model; returns list of (text_index, dump_index, orc, tie)"""
-    runs, hrc, herr = run_batch(exe, f"{vlib.REPO}/database/{dbname}", texts)
+    runs, hrc, herr = run_batch(exe, dbfile(dbname), texts)
     findings = []
     if hrc != 0 or len(runs) != len(texts):
         # a crash of the harness process: find the run that killed it
         return [("crash", len(runs), hrc, herr)], runs
     mlines = list(dblines)
+    mb = {n: set(sp.elements) for n, sp in db.species.items() if sp.mole_balance}
+    has_const = any(nm == "XconstantX" for o in list(db.species.values()) + list(db.phases.values()) for nm, _ in o.add_logk)
+    redo = []
     index = []
     for i, run in enumerate(runs):
         stats["runs"] += 1
@@ -687,18 +784,40 @@ def check_runs(ctx, exe, dbname, db, dblines, texts, stats):
         if mc is None or "gate" not in mc:
             findings.append((i, d["idx"], [], [("driver", "no-output", cid)], [], []))
             continue
-        orc, tie = judge(d, mc, stats)
-        if orc or tie or d.get("finding") or d.get("iso_finding"):
-            findings.append((i, d["idx"], orc, tie, d.get("finding") or [], d.get("iso_finding") or []))
+        orc, tie = judge(d, mc, stats, mb)
+        extra = []
+        if d.get("iso_finding"):
+            extra.append((ISO_KEY, "ISOTOPES database: add_isotopes() replaces total H / total O by the major-isotope moles before "
+                          "the initial solution is punched", d["iso_finding"]))
+        if (orc or tie) and has_const:
+            redo.append((i, d, cid, orc, tie, extra))
+            continue
+        if orc or tie or d.get("finding") or extra:
+            findings.append((i, d["idx"], orc, tie, d.get("finding") or [], extra))
+    if redo:
+        # the database uses -add_constant: is the engine exactly what the text WITHOUT those lines prescribes?
+        lines_b = dbparse.to_lines(db, "no-constants", drop_constants=True)
+        for i, d, cid, orc, tie, extra in redo:
+            lines_b += case_lines(d, cid)
+        cases_b = parse_model(pmodel(ctx, "\n".join(lines_b) + "\n"))
+        for i, d, cid, orc, tie, extra in redo:
+            mcb = cases_b.get(cid)
+            ob, tb = judge(d, mcb, new_stats(), mb) if mcb and "gate" in mcb else (orc, tie)
+            if not ob and not tb:
+                stats["add_constant_ignored_states"] += 1
+                extra.append((CONST_KEY, "-add_constant is ignored: the engine's log K are those of the database text without the "
+                              "-add_constant lines", orc))
+                orc, tie = [], []
+            findings.append((i, d["idx"], orc, tie, d.get("finding") or [], extra))
     return findings, runs
 
 
-def run_db(ctx, exe, dbname, nruns, seed_rng, stats, cov, sweep=False):
-    db = dbparse.parse(str(vlib.REPO / "database" / dbname))
-    dblines = dbparse.to_lines(db, dbname)
+def run_db(ctx, exe, dbname, nruns, seed_rng, stats, cov, sweep=False, focus=None):
+    db = dbparse.parse(dbfile(dbname))
+    dblines = dbparse.to_lines(db, Path(dbname).name)
     texts, metas = [], []
     for _ in range(nruns):
-        t, m = gens.gen_run(seed_rng, db)
+        t, m = gens.gen_run(seed_rng, db, focus=focus)
         texts.append(t)
         metas.append(m)
     if sweep:
@@ -744,7 +863,7 @@ def _first_times(ctx, key, limit=3):
     return seen[key] <= limit
 
 
-def handle_findings(ctx, exe, dbname, db, dblines, results):
+def handle_findings(ctx, exe, dbname, db, dblines, results, db_text=None):
     n_or, n_tie = 0, 0
     for k, tx, findings in sorted(results, key=lambda x: x[0]):
         for f in findings:
@@ -753,14 +872,14 @@ def handle_findings(ctx, exe, dbname, db, dblines, results):
                               {"db": dbname, "inputs": tx[f[1]:f[1] + 1], "kind": "crash"})
                 n_or += 1
                 continue
-            i, di, orc, tie, found, iso_found = f
+            i, di, orc, tie, found, extra = f
             text = tx[i]
-            if iso_found and _first_times(ctx, ISO_KEY):
-                ctx.finding(ISO_KEY,
-                            "ISOTOPES database: add_isotopes() replaces total H / total O by the major-isotope moles before the "
-                            "initial solution is punched: " + f"{dbname}: {iso_found[0][2]}",
-                            {"db": dbname, "input": ISO_REPLAY if dbname == "iso.dat" else text, "dump": di,
-                             "failures": [list(map(str, x)) for x in iso_found[:4]]})
+            for key, what, items in extra:
+                if _first_times(ctx, key):
+                    canon = {ISO_KEY: ISO_REPLAY if dbname == "iso.dat" else None}.get(key)
+                    ctx.finding(key, f"{what}: {Path(dbname).name}: {items[0][1]}: {items[0][2]}",
+                                {"db": dbname, "db_text": db_text, "input": canon or text, "dump": di,
+                                 "failures": [list(map(str, x)) for x in items[:4]]})
             if found and _first_times(ctx, STALE_KEY):
                 ctx.finding(STALE_KEY,
                             "model() accepted a state whose molalities were computed before the last gammas() call (end of "
@@ -776,12 +895,12 @@ def handle_findings(ctx, exe, dbname, db, dblines, results):
                 kinds[kk] = kinds.get(kk, 0) + 1
                 if kinds[kk] <= 2 and sum(1 for v in kinds.values() if v) <= 12:
                     small = shrink_input(ctx, exe, dbname, db, dblines, text, orc[0][0])
-                    ctx.violation(f"{dbname}: {orc[0][0]} {orc[0][1]}: {orc[0][2]}",
-                                  {"db": dbname, "input": small, "dump": di, "failures": [list(map(str, x)) for x in orc[:6]],
+                    ctx.violation(f"{Path(dbname).name}: {orc[0][0]} {orc[0][1]}: {orc[0][2]}",
+                                  {"db": dbname, "db_text": db_text, "input": small, "dump": di, "failures": [list(map(str, x)) for x in orc[:6]],
                                    "ties": [list(map(str, x)) for x in tie[:6]]})
             elif tie:
                 n_tie += 1
-                ctx.tie_breaks.append({"db": dbname, "input": text, "dump": di, "ties": [list(map(str, x)) for x in tie[:6]]})
+                ctx.tie_breaks.append({"db": dbname, "db_text": db_text, "input": text, "dump": di, "ties": [list(map(str, x)) for x in tie[:6]]})
     return n_or, n_tie
 
 
@@ -886,6 +1005,40 @@ def _run(ctx, ok, exe):
     stats["oracle_failures"] = tot_or
     if tot_or and not ctx.violations:
         ctx.violation(f"{tot_or} oracle failures were counted but none recorded", {"kinds": {f"{a}:{b}": c for (a, b), c in getattr(ctx, "_orc_kinds", {}).items()}}, found_input=False)
+    # 4. synthetic databases: phreeqc.dat + generated NAMED_EXPRESSIONS / SOLUTION_SPECIES / PHASES using every option spelling
+    base = (vlib.REPO / "database" / "phreeqc.dat").read_text(encoding="latin-1")
+    base_db = dbparse.parse(base, is_text=True)
+    sdir = vlib.BUILD / "c01_synth"
+    sdir.mkdir(exist_ok=True)
+    synth_cov = {}
+    for k in range(6 if thorough else 2):
+        text, smeta = gens.gen_synth_db(ctx.rng, base, base_db)
+        path = sdir / f"synth_{ctx.seed}_{k}.dat"
+        path.write_text(text, encoding="latin-1")
+        for f in smeta["features"]:
+            synth_cov[f] = synth_cov.get(f, 0) + 1
+        sdb = dbparse.parse(str(path))
+        diffs, cnt = compare_db(ctx, exe, str(path), sdb)
+        ndb_items += cnt
+        if sdb.problems or diffs:
+            ctx.violation(f"generated database {path.name}: the engine's reading differs from the text: {(sdb.problems + diffs)[0]}",
+                          {"kind": "dbtable-synth", "db_text": text, "diffs": (sdb.problems + diffs)[:10]}, found_input=False)
+            continue
+        before = dict(stats)
+        stats["seen"] = set()
+        focus = smeta["species"]
+        db, dblines, results = run_db(ctx, exe, str(path), 300 if thorough else 120, ctx.rng, stats, cov, sweep=False,
+                                      focus=[x for x in ("Na", "K", "Li", "Ca", "Mg", "Ba", "Sr", "Mn", "Zn", "Cd", "Cu", "Al",
+                                                         "Cl", "Br", "F", "N", "S") if x])
+        a, b = handle_findings(ctx, exe, str(path), db, dblines, results, db_text=text)
+        tot_or += a
+        tot_tie += b
+        per_db[path.name] = {"runs": stats["runs"] - before["runs"], "dumps": stats["dumps"] - before["dumps"],
+                             "errors": stats["runs_error"] - before["runs_error"], "species_checked": stats["res"] - before["res"],
+                             "synthetic_species_checked": len(stats["seen"] & set(focus)), "synthetic_species": len(focus)}
+        ctx.log(path.name, per_db[path.name])
+    cov["synthetic_db_features"] = synth_cov
+    stats["oracle_failures"] = tot_or
     if ctx.tie_breaks and not ctx.violations:
         tb = ctx.tie_breaks[0]
         ctx.violation(f"model and engine disagree ({tb['ties'][0]}) while every direct oracle holds", dict(tb, kind="tie"),
@@ -939,8 +1092,12 @@ def _replay(ctx, data, exe):
                               {"kind": "dbtable", "diffs": {n: diffs[:10]}}, found_input=False)
         return
     dbname = data["db"]
-    db = dbparse.parse(str(vlib.REPO / "database" / dbname))
-    dblines = dbparse.to_lines(db, dbname)
+    if data.get("db_text"):
+        (vlib.BUILD / "c01_synth").mkdir(exist_ok=True)
+        dbname = str(vlib.BUILD / "c01_synth" / "replay.dat")
+        Path(dbname).write_text(data["db_text"], encoding="latin-1")
+    db = dbparse.parse(dbfile(dbname))
+    dblines = dbparse.to_lines(db, Path(dbname).name)
     texts = data.get("inputs") or [data["input"]]
     stats = new_stats()
     findings, runs = check_runs(ctx, exe, dbname, db, dblines, texts, stats)
